@@ -100,6 +100,8 @@ def run(ctx):
       pass  # covered by the escape access above
   ctx.note('user-defined __repr__/__eq__ executed while the record lock is held are outside the analysis')
 
+  from .common import record_before_call
+  record_before_call(ctx, 'C18.lockset')
   # ---- C18.once
   sv = ctx.func('config.singleton_value')
   sa = [a for a in acc if a.store == '_SINGLETONS' and a.func is sv]
